@@ -22,6 +22,47 @@ claim("C10",
       "Lean 4 proof (induction on byte lists / digit width) + differential correspondence of the executable model",
       "DESIGN.md §5 C10")
 
+TB = ("Trusted: Lean 4.33 kernel (+propext, Classical.choice, Quot.sound as printed per theorem in the evidence), the hand-written "
+      "model being the code (established by the differential correspondence suites - sampled - and the regenerated constants), "
+      "harness canonicalisation. ")
+
+claim("C03",
+      "Lean theorems KB.Props.C03 over the worker-loop model (scanner.go:416-507), getInternalVal and List/Count: for EVERY sorted decoded "
+      "store, revision and key, a range scan emits exactly the newest version <= R of each key unless it is a deletion, sorted, once; the point "
+      "read equals the same spec for every adapter deviation (Quirks); limits give a prefix and more <-> cut short; re-reads are stable. The "
+      "full 'any non-empty value' clause is false (value == tombstone): stated, witnessed by `tombstone_value_lost`, replayed every run, known finding. "
+      "Correspondence: random histories on memkv/badger/tikv-mock/metrics wrapper, model vs implementation line by line, plus an independent MVCC oracle.",
+      TB + "Reads at revisions <= committed and >= floor; sequential histories (concurrency is C04/C01).",
+      "Lean 4 proof (normal form of the scan loop by induction over sorted record lists) + differential correspondence", "DESIGN.md §5 C03")
+claim("C04",
+      "Lean theorems KB.Props.C04 over the interleaving LTS KB.Sys (any number of clients, any schedule, any expected revisions incl. future/"
+      "malformed, any placement of storage faults): committed < every unreported dealt revision; slot accounting (every dealt revision above "
+      "committed is in a slot xor owned by exactly one in-flight request); no stall; at quiescence committed = dealt; every returned request's "
+      "revision is resolved. Correspondence: gated schedules (every storage call a script step) on three engines.",
+      TB + "Atomicity granularity of KB.Sys (one Deal / one batch commit / one snapshot read / one slot store per step); Go scheduler fairness for liveness.",
+      "Lean 4 proof (inductive invariant over all schedules of an LTS) + scheduled differential correspondence", "DESIGN.md §5 C04")
+claim("C11",
+      "Lean theorems KB.Props.C11 on the reference engine every other theorem uses: batch all-or-nothing and applied exactly when all conditions "
+      "hold on the state each op sees; failures are condition failures (contractual Quirks); the store is a map; forward/backward iteration yields "
+      "exactly the interval, ordered, limit = prefix with at least `limit` elements. Each adapter (memkv, badger, tikv mock, each behind the metrics "
+      "wrapper) is tied to the reference engine with its recorded Quirks by the differential `engine` suite + a dict-based contract oracle.",
+      TB + "Third-party engines (skiplist, badger, tikv client/mock) are modelled, not verified: snapshot isolation under real concurrency is assumed.",
+      "Lean 4 proof about the reference engine + differential correspondence of every adapter against it", "DESIGN.md §5 C11")
+claim("C12",
+      "Lean theorems KB.Props.C12: for any two engines that differ only in what the storage interface leaves open (conflict value/index, limit "
+      "handling, bare vs wrapped CAS errors), Get/Create/Update/Delete/List of the backend model give the same response and successor state on every "
+      "well-formed store; without the contract it is false (witness: pre-fix tikv). Correspondence: the same script on memkv, badger, tikv, metrics(badger) "
+      "must give pairwise identical transcripts (this IS the property) and equal the model.",
+      TB + "Sequential histories; TTL-dependent behaviour excluded (C17).",
+      "Lean 4 proof (per-request independence of Quirks) + pairwise differential runs across engines", "DESIGN.md §5 C12")
+claim("C13",
+      "Lean theorems KB.Props.C13: the worker loop distributes over a split at a key boundary; adjustPartitionsBorders yields contiguous partitions "
+      "whose interior borders are index positions; for ANY sorted list of well-formed borders the concatenation of per-partition outputs equals the "
+      "unpartitioned scan; stream batches carry the read revision with one terminator. Correspondence: injected (reversed) partitions on all engines and "
+      "real tikv-mock region splits; List/Count/ListByStream per advertised partition and whole, with an MVCC oracle.",
+      TB + "Borders are stored keys or well-formed internal keys (the property's own quantifier).",
+      "Lean 4 proof (list induction; border adjustment monotone in (key,rev) order) + differential correspondence", "DESIGN.md §5 C13")
+
 ALL = ["C%02d" % i for i in range(1, 21)]
 
 
